@@ -471,13 +471,15 @@ func (ex *Exec) step(fr *Frame, instr ssa.Instruction) *Panic {
 	case *ssa.MakeSlice:
 		ln := ex.get(fr, in.Len).(*Term)
 		cp := ex.get(fr, in.Cap).(*Term)
-		n, pan := ex.sizeArg(ln, "makeslice: len out of range")
+		_, lsigned, _ := intWidth(in.Len.Type())
+		_, csigned, _ := intWidth(in.Cap.Type())
+		n, pan := ex.sizeArg(ln, lsigned, "makeslice: len out of range")
 		if pan != nil {
 			return pan
 		}
 		c := n
 		if cp != ln {
-			c, pan = ex.sizeArg(cp, "makeslice: cap out of range")
+			c, pan = ex.sizeArg(cp, csigned, "makeslice: cap out of range")
 			if pan != nil {
 				return pan
 			}
@@ -617,9 +619,9 @@ type strIter struct {
 }
 
 // sizeArg validates a make() size: negative or absurdly large → panic path / allocation finding.
-func (ex *Exec) sizeArg(t *Term, msg string) (int, *Panic) {
+func (ex *Exec) sizeArg(t *Term, signed bool, msg string) (int, *Panic) {
 	if t.w != 64 {
-		t = ex.ts.Resize(t, 64, true) // make sizes of any int type; callers pass ints mostly
+		t = ex.ts.Resize(t, 64, signed) // make sizes may be of any integer type
 	}
 	neg := ex.ts.Cmp(OpSlt, t, ex.ts.Const(64, 0))
 	if pan := ex.guard(ex.ts.Not(neg), "makeneg", msg); pan != nil {
